@@ -54,7 +54,9 @@ Definition tOp (t : tree) : op :=
   else if k =? 26 then OStylize (tZ a) (tZ b) (tOpt tZ c)
   else if k =? 27 then OHighlightWords (tList tStr a) (tZ b)
   else if k =? 28 then OHighlightRuns (tStr a) (tZ b)
-  else OCopyStyles (tArg a).
+  else if k =? 29 then OCopyStyles (tArg a)
+  else OHighlighter (tList (fun x => (tStr (tNth x 0), tZ (tNth x 1))) a)
+                    (let kind := tZ b in if kind =? 0 then HText else if kind =? 1 then HStr (tStr c) else HOther).
 
 (* initial text: Text(raw, style/justify/..., spans=...) *)
 Definition tInit (fx : fixes) (t : tree) : text := ctor fx (tStr (tNth t 0)) (tMeta (tNth t 1)) (tList tSpan (tNth t 2)).
@@ -167,5 +169,10 @@ Definition ops : list (string * (tree -> tree)) := store_ops ++ [
               | s0 :: srest => state_ok r0 s0 && hist_ok r0 os srest
               | [] => false
               end));
-  ("spec.consistent", fun t => ofB (consistent_b (tText t)))
+  ("spec.consistent", fun t => ofB (consistent_b (tText t)));
+  (* [before, after, source_after]: a real highlighter object called on a Text (or on Text(str)) *)
+  ("spec.hl_ok", fun t =>
+      let before := tText (tNth t 0) in
+      ofB (negb (consistent_b before)
+           || (hl_ok_b before (tText (tNth t 1)) && text_eqb before (tText (tNth t 2)))))
 ].
